@@ -1112,6 +1112,7 @@ def select__innermost(self: XPathFunction, context: ta.ContextType = None) \
     if any(not isinstance(x, XPathNode) for x in nodes):
         raise self.error('XPTY0004', 'argument must contain only nodes')
 
+    context = copy(context)  # the focus of the caller must not follow the scan of the ancestors
     ancestors = {x for context.item in nodes for x in context.iter_ancestors(axis='ancestor')}
     results = {x for x in nodes if x not in ancestors}
     yield from cast(list[XPathNode], sorted(results, key=node_position))
@@ -1131,6 +1132,8 @@ def select__outermost(self: XPathFunction, context: ta.ContextType = None) \
     results = set()
     if len(nodes) > 10:
         nodes = set(nodes)
+
+    context = copy(context)  # the focus of the caller must not follow the scan of the ancestors
 
     for item in nodes:
         context.item = item
